@@ -156,7 +156,7 @@ class LawsRandom(Component):
     rule = "refinement runs non-empty and different, or both partition parts non-empty"
 
     def examples(self, tier):
-        return 100 if tier == "quick" else 800
+        return 250 if tier == "quick" else 800
 
     def strategy(self, tier):
         return law_case(tier)
